@@ -203,7 +203,7 @@ func doFmt(c *planCase) []vt.Ev {
 	x.URL, x.PubURL, x.Class = jsonStr(c, "url"), jsonStr(c, "pubUrl"), jsonStr(c, "class")
 	ev := vt.Ev{"ev": c.C, "kt": c.Kt, "kind": c.Kind, "p": c.field("p"), "dp": c.field("dp"), "url": x.URL, "fmtBuilt": false, "format": "", "found": false,
 		"tplParse": false, "wantBuilt": false, "lite": false, "km": emptyKD(), "reg": emptyKD(), "nk": map[string]any{"panic": false, "err": true, "name": "", "parse": false, "eqWant": false},
-		"prim": emptyPrim(), "pub": emptyPub()}
+		"prim": emptyPrim(), "pub": emptyPub(), "junk": map[string]any{"done": false, "trunc": "", "flip": "", "pubTrunc": "", "fmtTrunc": ""}}
 	format, ok := encodeFormat(c.Kt, c.Wire)
 	if !ok {
 		return []vt.Ev{ev}
@@ -272,6 +272,27 @@ func doFmt(c *planCase) []vt.Ev {
 	}
 	if kd == nil || c.C == "pubfmt" {
 		return []vt.Ev{ev}
+	}
+	// ---- damaged input must never panic: a truncated / bit-flipped serialized key, a truncated key format
+	{
+		j := ev["junk"].(map[string]any)
+		v := kd.GetValue()
+		rng := vt.Rng(int64(c.n)*8 + 4)
+		flip := append([]byte(nil), v...)
+		if len(flip) > 0 {
+			flip[rng.Intn(len(flip))] ^= 1 << uint(rng.Intn(8))
+		}
+		j["done"] = true
+		j["trunc"] = refused(func() error { _, err := km.Primitive(append([]byte(nil), v[:len(v)/2]...)); return err })
+		j["flip"] = refused(func() error { _, err := km.Primitive(flip); return err })
+		j["pubTrunc"] = "n/a"
+		if pkm, ok := km.(registry.PrivateKeyManager); ok {
+			j["pubTrunc"] = refused(func() error { _, err := pkm.PublicKeyData(append([]byte(nil), v[:len(v)/2]...)); return err })
+		}
+		j["fmtTrunc"] = "n/a"
+		if len(format) > 1 {
+			j["fmtTrunc"] = refused(func() error { _, err := km.NewKeyData(append([]byte(nil), format[:len(format)-1]...)); return err })
+		}
 	}
 	// ---- PublicKeyData and the primitives
 	var pubKD *tinkpb.KeyData
